@@ -410,7 +410,10 @@ def build_driver(name, model_ml, driver_ml, extra_ml=()):
     ex = os.path.join(COQ, "Extract")
     out_dir = os.path.join(VERIF, ".build")
     os.makedirs(out_dir, exist_ok=True)
-    parts = [os.path.join(ex, model_ml), os.path.join(ex, "zio.ml")] + [os.path.join(ex, e) for e in extra_ml] + [os.path.join(ex, driver_ml)]
+    parts = [os.path.join(ex, model_ml)]
+    if "type positive" in open(parts[0]).read():
+        parts.append(os.path.join(ex, "zio.ml"))
+    parts += [os.path.join(ex, e) for e in extra_ml] + [os.path.join(ex, driver_ml)]
     text = "\n".join(open(p).read() for p in parts)
     main = os.path.join(out_dir, name + "_main.ml")
     exe = os.path.join(out_dir, name)
